@@ -376,6 +376,10 @@ struct ScriptBody {
 struct ScriptLog {
     polls: usize,
     polls_after_end: usize,
+    /// did the most recent poll of the scripted body answer Pending
+    last_pending: bool,
+    /// 'c' per chunk handed over, 'B' (pushed by the collector) per blocking task observed
+    trace: String,
 }
 
 #[derive(Debug)]
@@ -394,17 +398,22 @@ impl MessageBody for ScriptBody {
     }
     fn poll_next(mut self: Pin<&mut Self>, cx: &mut Context<'_>) -> Poll<Option<Result<Bytes, ScriptErr>>> {
         self.log.borrow_mut().polls += 1;
+        self.log.borrow_mut().last_pending = false;
         match self.evs.pop_front() {
             None => {
                 self.log.borrow_mut().polls_after_end += 1;
                 Poll::Ready(None)
             }
             Some(Ev::Pending) => {
+                self.log.borrow_mut().last_pending = true;
                 cx.waker().wake_by_ref();
                 Poll::Pending
             }
             Some(Ev::Err) => Poll::Ready(Some(Err(ScriptErr))),
-            Some(Ev::Chunk(b)) => Poll::Ready(Some(Ok(b))),
+            Some(Ev::Chunk(b)) => {
+                self.log.borrow_mut().trace.push('c');
+                Poll::Ready(Some(Ok(b)))
+            }
         }
     }
 }
@@ -439,11 +448,24 @@ struct Collected {
     pendings: usize,
 }
 
-async fn collect_body<B: MessageBody>(body: B) -> Collected {
+/// Occupies the runtime's single blocking-pool thread until the sender is dropped, so that a
+/// `spawn_blocking` issued by the code under test is queued behind it and its `JoinHandle` is
+/// *deterministically* Pending on the first poll (this is how the blocking path is observed).
+fn new_gate() -> std::sync::mpsc::Sender<()> {
+    let (tx, rx) = std::sync::mpsc::channel::<()>();
+    drop(actix_rt::task::spawn_blocking(move || {
+        let _ = rx.recv();
+    }));
+    tx
+}
+
+async fn collect_body<B: MessageBody>(body: B, log: Rc<RefCell<ScriptLog>>) -> Collected {
     let mut body = Box::pin(body);
     let mut chunks = Vec::new();
     let mut pendings = 0usize;
     let mut polls = 0usize;
+    let mut gate = Some(new_gate());
+    let mut awaiting_block = false;
     let fut = async {
         loop {
             let r = std::future::poll_fn(|cx| {
@@ -451,12 +473,28 @@ async fn collect_body<B: MessageBody>(body: B) -> Collected {
                 if polls > 2_000_000 {
                     return Poll::Ready(Err(()));
                 }
+                let before = log.borrow().polls;
                 match body.as_mut().poll_next(cx) {
                     Poll::Pending => {
                         pendings += 1;
+                        let body_polled = log.borrow().polls > before;
+                        let body_pending = body_polled && log.borrow().last_pending;
+                        if body_polled {
+                            awaiting_block = false;
+                        }
+                        if !body_pending && !awaiting_block {
+                            // a blocking task is in flight: note it, let it run, re-arm the gate behind it
+                            log.borrow_mut().trace.push('B');
+                            awaiting_block = true;
+                            drop(gate.take());
+                            gate = Some(new_gate());
+                        }
                         Poll::Pending
                     }
-                    Poll::Ready(x) => Poll::Ready(Ok(x)),
+                    Poll::Ready(x) => {
+                        awaiting_block = false;
+                        Poll::Ready(Ok(x))
+                    }
                 }
             })
             .await;
@@ -482,12 +520,38 @@ async fn collect_body<B: MessageBody>(body: B) -> Collected {
             }
         }
     }
+    drop(gate.take());
     Collected { chunks, end, polls_after_done_ok: stable, pendings }
+}
+
+/// `trace` ('c' = chunk handed over by the scripted body, 'B' = blocking task seen) → one letter
+/// per chunk: I = encoded in place, B = encoded on the blocking pool.  A `Bytes` body never goes
+/// through the script: it is one chunk.
+fn path_of(trace: &str, scripted: bool, nonempty: bool) -> String {
+    if !scripted {
+        return if !nonempty { "-".into() } else if trace.contains('B') { "B".into() } else { "I".into() };
+    }
+    let mut out = String::new();
+    let t: Vec<char> = trace.chars().collect();
+    for (i, ch) in t.iter().enumerate() {
+        if *ch == 'c' {
+            out.push(if t.get(i + 1) == Some(&'B') { 'B' } else { 'I' });
+        }
+    }
+    if out.is_empty() {
+        "-".into()
+    } else {
+        out
+    }
 }
 
 fn run_resp(line: &str) -> CaseResult {
     let line = line.to_owned();
-    block_on_system(async move { run_resp_async(&line, false).await })
+    // a System whose blocking pool has exactly one thread (see `new_gate`)
+    actix_rt::System::with_tokio_rt(|| {
+        tokio::runtime::Builder::new_current_thread().enable_all().max_blocking_threads(1).build().unwrap()
+    })
+    .block_on(async move { run_resp_async(&line, false).await })
 }
 
 fn run_wire(line: &str) -> CaseResult {
@@ -649,7 +713,7 @@ async fn run_resp_async(line: &str, wire: bool) -> CaseResult {
     let (_, resp) = res.into_parts();
     let (_, body) = resp.into_parts();
     let size = body.size();
-    let col = collect_body(body).await;
+    let col = collect_body(body, log.clone()).await;
     let raw: Vec<u8> = col.chunks.iter().flat_map(|b| b.iter().copied()).collect();
 
     // did the middleware encode?  (the handler's own Content-Encoding, if any, is kept as is)
@@ -676,13 +740,15 @@ async fn run_resp_async(line: &str, wire: bool) -> CaseResult {
         let lens: Vec<String> = col.chunks.iter().map(|c| c.len().to_string()).collect();
         format!("chunks={} {}", if lens.is_empty() { "-".into() } else { lens.join(",") }, show_sum(&raw))
     };
+    let path = if encoded { path_of(&log.borrow().trace, is_script, !bytes.is_empty()) } else { "-".to_owned() };
     let output = format!(
-        "st={} ce={} vary={} size={} {} end={}",
+        "st={} ce={} vary={} size={} {} path={} end={}",
         status,
         show_list(&ce),
         show_list(&vary),
         show_size(size),
         body_str,
+        path,
         col.end
     );
 
@@ -1302,11 +1368,16 @@ fn gen(ctx: &Ctx) -> Vec<String> {
             }
         }
     }
-    for ce in ["gzip", "br", "deflate", "zstd"] {
+    for (k, ce) in ["gzip", "br", "deflate", "zstd"].into_iter().enumerate() {
         cases.push(format!("req ce={ce} bad=1 body=c4 n=300 ev=100 j=0"));
         cases.push(format!("req ce={ce} body=c4 n=3000 ev=10,e j=0"));
-        cases.push(format!("req ce={ce} body=r5 n={} ev=- j=2", 1usize << 20));
-        cases.push(format!("req ce={ce} body=c5 n={} ev={} j=1,0,2", 1usize << 20, vec!["4096"; 40].join(",")));
+        // 1 MiB: two per coding in thorough, alternating in quick
+        if thorough || k % 2 == 0 {
+            cases.push(format!("req ce={ce} body=r5 n={} ev=- j=2", 1usize << 20));
+        }
+        if thorough || k % 2 == 1 {
+            cases.push(format!("req ce={ce} body=c5 n={} ev={} j=1,0,2", 1usize << 20, vec!["4096"; 40].join(",")));
+        }
     }
     for _ in 0..ctx.budget(300) {
         let ce = *rng.pick::<&str>(&["gzip", "br", "deflate", "zstd", "gzip", "br", "identity", "-", "Gzip", "x-foo"]);
